@@ -95,6 +95,11 @@ fn guarded<T>(f: impl FnOnce() -> T) -> Result<T, String> {
     r
 }
 
+/// for the bridge (js/e2eleg.mjs): a guarded call on the current thread's session
+pub fn guarded_pub<T>(f: impl FnOnce() -> T) -> Result<T, String> {
+    guarded(f)
+}
+
 fn guarded_inner<T>(f: impl FnOnce() -> T) -> Result<T, String> {
     LAST_PANIC.with(|p| *p.borrow_mut() = None);
     let was = IN_GUARD.with(|g| g.replace(true));
